@@ -649,3 +649,165 @@ Proof.
       split; [eapply post_trans; eauto | exact K2].
 Qed.
 End ExecOk.
+
+(** * Two-run lemma: what a poll does to its own request depends on that request only *)
+Section ExecRel.
+Variable sb : bool.
+Variable me : rid.
+Hypothesis me_nz : me <> 0.
+
+(** two configurations that agree on request [me] (and, inside a wrapper, on the ambient owner) *)
+Definition rel (ins : bool) (c1 c2 : cfg) : Prop :=
+  sim sb me (c_w c1) (c_w c2) /\
+  a_obs (c_amb c1) = a_obs (c_amb c2) /\
+  (ins = true -> a_owner (c_amb c1) = a_owner (c_amb c2) /\ amb_in sb me c1 /\ amb_in sb me c2).
+
+Lemma sim_upd : forall w1 w2 f, sim sb me w1 w2 ->
+  sim sb me (set_req me (f (get_req me w1)) w1) (set_req me (f (get_req me w2)) w2).
+Proof.
+  intros w1 w2 f [A B]; split; [now rewrite !get_set_same, A | exact B].
+Qed.
+
+Lemma rel_upd : forall ins c1 c2 f, rel ins c1 c2 -> rel ins (upd_req me f c1) (upd_req me f c2).
+Proof.
+  intros ins c1 c2 f [S [O I]]; split; [|split].
+  - unfold upd_req; cbn [c_w with_w]. now apply sim_upd.
+  - exact O.
+  - intro Hi. destruct (I Hi) as [E [A1 A2]]. split; [exact E | split; [exact A1 | exact A2]].
+Qed.
+
+Lemma rel_store_cons : forall ins c1 c2 k v, rel ins c1 c2 ->
+  rel ins (with_w c1 (set_store ((k, v) :: w_store (c_w c1)) (c_w c1)))
+          (with_w c2 (set_store ((k, v) :: w_store (c_w c2)) (c_w c2))).
+Proof.
+  intros ins c1 c2 k v [[A B] [O I]]; split; [|split].
+  - split; [exact A|]. intros k' Hk'; cbn. destruct (key_eqb k' k); [reflexivity | now apply B].
+  - exact O.
+  - intro Hi. destruct (I Hi) as [E [A1 A2]]. split; [exact E | split; [exact A1 | exact A2]].
+Qed.
+
+Lemma rel_cur_owner : forall c1 c2, rel true c1 c2 -> cur_owner c1 = cur_owner c2.
+Proof.
+  intros c1 c2 [[A _] [_ I]]. destruct (I eq_refl) as [E [A1 _]].
+  unfold cur_owner. rewrite <- E. destruct (a_owner (c_amb c1)) as [o|] eqn:Eo; [|reflexivity].
+  assert (Ho : fst o = me) by (eapply amb_in_owner; eauto).
+  unfold owner_live. now rewrite Ho, A.
+Qed.
+
+Lemma rel_owner_get : forall c1 c2 o, rel true c1 c2 -> cur_owner c1 = Some o -> fst o = me.
+Proof.
+  intros c1 c2 o [_ [_ I]] E. destruct (I eq_refl) as [_ [A1 _]].
+  eapply amb_in_owner; eauto. now apply cur_owner_some.
+Qed.
+
+Lemma rel_read_ctx : forall c1 c2 k, rel true c1 c2 -> read_ctx c1 k = read_ctx c2 k.
+Proof.
+  intros c1 c2 k R. unfold read_ctx. rewrite <- (rel_cur_owner _ _ R).
+  destruct (cur_owner c1) as [o|] eqn:E; [|reflexivity].
+  rewrite (rel_owner_get _ _ _ R E). destruct R as [[A _] _]. now rewrite A.
+Qed.
+
+Lemma rel_owner_req : forall c1 c2, rel true c1 c2 -> read_owner_req c1 = read_owner_req c2.
+Proof. intros c1 c2 R. unfold read_owner_req. now rewrite (rel_cur_owner _ _ R). Qed.
+
+Lemma rel_write_owner : forall c1 c2, rel true c1 c2 -> write_owner c1 = write_owner c2.
+Proof. intros c1 c2 R. unfold write_owner. now rewrite (rel_cur_owner _ _ R). Qed.
+
+Lemma rel_cur_arena : forall c1 c2, rel true c1 c2 -> cur_arena sb c1 = cur_arena sb c2.
+Proof.
+  intros c1 c2 [[A _] [_ I]]. destruct (I eq_refl) as [_ [[_ A1] [_ A2]]].
+  unfold cur_arena. destruct sb; [|reflexivity].
+  rewrite (A1 eq_refl), (A2 eq_refl), A. reflexivity.
+Qed.
+
+Lemma cur_arena_in : forall c a, amb_in sb me c -> cur_arena sb c = Some a -> a = if sb then me else 0.
+Proof.
+  intros c a [_ A] H. unfold cur_arena in H. destruct sb.
+  - rewrite (A eq_refl) in H. destruct (q_dropped (get_req me (c_w c))); congruence.
+  - congruence.
+Qed.
+
+Lemma alloc_place_in : forall c, amb_in sb me c ->
+  alloc_place sb me c = None \/ alloc_place sb me c = Some (if sb then me else 0, me).
+Proof.
+  intros c [_ A]. unfold alloc_place, cur_arena. destruct sb; [|auto].
+  rewrite (A eq_refl). destruct (q_dropped (get_req me (c_w c))); auto.
+Qed.
+
+Lemma rel_read_item : forall c1 c2 s, good sb (c_w c1) -> rel true c1 c2 ->
+  read_item sb me c1 s = read_item sb me c2 s.
+Proof.
+  intros c1 c2 s G R. unfold read_item.
+  pose proof R as [[A B] [_ I]]. destruct (I eq_refl) as [_ [A1 A2]].
+  rewrite <- A. destruct (assoc_nat s (q_slots (get_req me (c_w c1)))) as [h|] eqn:Es; [|reflexivity].
+  unfold read_handle. rewrite <- (rel_cur_arena _ _ R).
+  destruct (cur_arena sb c1) as [a|] eqn:Ea; [|reflexivity].
+  apply (cur_arena_in _ _ A1) in Ea. subst a.
+  assert (Hh : fst h = hns sb me).
+  { eapply (ok_slots _ _ _ (G me me_nz) s). clear - Es.
+    induction (q_slots (get_req me (c_w c1))) as [|[s' h'] l IH]; cbn in Es; [discriminate|].
+    destruct (Nat.eqb s s') eqn:E; [apply Nat.eqb_eq in E; inversion Es; subst; now left | right; auto]. }
+  rewrite B; [reflexivity|]. unfold belongs, hns in *. destruct sb; cbn.
+  - apply Nat.eqb_refl.
+  - rewrite Hh. apply Nat.eqb_refl.
+Qed.
+
+Lemma rel_world_only : forall ins c1 c2 c1' c2',
+  rel ins c1 c2 -> c_amb c1' = c_amb c1 -> c_amb c2' = c_amb c2 ->
+  sim sb me (c_w c1') (c_w c2') -> rel ins c1' c2'.
+Proof.
+  intros ins c1 c2 c1' c2' [_ [O I]] E1 E2 S; split; [exact S|split].
+  - now rewrite E1, E2.
+  - intro Hi. destruct (I Hi) as [E [[X1 Y1] [X2 Y2]]]. rewrite E1, E2.
+    split; [exact E|]. unfold amb_in. rewrite E1, E2. split; split; auto.
+Qed.
+
+Lemma do_act_rel : forall a c1 c2,
+  good sb (c_w c1) -> rel true c1 c2 ->
+  sim sb me (c_w (do_act sb me a c1)) (c_w (do_act sb me a c2)).
+Proof.
+  intros a c1 c2 G R.
+  destruct a as [p kind slot|k v|slot v|id|g]; cbn [do_act].
+  - rewrite (rel_owner_req _ _ R), !(rel_read_ctx _ _ _ R).
+    replace (match slot with Some s => read_item sb me c1 s | None => (-9)%Z end)
+      with (match slot with Some s => read_item sb me c2 s | None => (-9)%Z end)
+      by (destruct slot; [symmetry; now apply rel_read_item | reflexivity]).
+    apply (rel_upd true c1 c2 _ R).
+  - rewrite <- (rel_write_owner _ _ R). destruct (write_owner c1) as [o|] eqn:E; [|apply R].
+    assert (Ho : fst o = me).
+    { unfold write_owner in E. destruct (cur_owner c1) as [o'|] eqn:E'; [|discriminate].
+      destruct (Nat.eqb (fst o') 0); [discriminate|]. inversion E; subst. eapply rel_owner_get; eauto. }
+    rewrite Ho. apply (rel_upd true c1 c2 _ R).
+  - pose proof R as [[A B] [_ I]]. destruct (I eq_refl) as [_ [A1 A2]].
+    replace (alloc_place sb me c2) with (alloc_place sb me c1)
+      by (unfold alloc_place; now rewrite (rel_cur_arena _ _ R)).
+    destruct (alloc_place_in c1 A1) as [-> | ->].
+    { split; [exact A | exact B]. }
+    rewrite <- A.
+    set (h := (if sb then 0 else me, q_cnt (get_req me (c_w c1)))).
+    pose proof (rel_upd true c1 c2 bump_cnt R) as R1.
+    pose proof (rel_store_cons true _ _ (if sb then me else 0, h) v R1) as R2.
+    pose proof (rel_upd true _ _ (add_slot slot h) R2) as R3.
+    match type of R3 with rel true ?x ?y => set (c31 := x) in *; set (c32 := y) in * end.
+    change (sim sb me
+      (c_w match write_owner c31 with
+           | Some o => upd_req (fst o) (upd_owners (upd_owner (snd o)
+                 (fun ow => mkOwner (o_parent ow) (o_ctx ow) (h :: o_nodes ow) (o_cleanups ow)))) c31
+           | None => c31 end)
+      (c_w match write_owner c32 with
+           | Some o => upd_req (fst o) (upd_owners (upd_owner (snd o)
+                 (fun ow => mkOwner (o_parent ow) (o_ctx ow) (h :: o_nodes ow) (o_cleanups ow)))) c32
+           | None => c32 end)).
+    rewrite <- (rel_write_owner _ _ R3). destruct (write_owner c31) as [o|] eqn:E; [|apply R3].
+    assert (Ho : fst o = me).
+    { unfold write_owner in E. destruct (cur_owner c31) as [o'|] eqn:E'; [|discriminate].
+      destruct (Nat.eqb (fst o') 0); [discriminate|]. inversion E; subst. eapply rel_owner_get; eauto. }
+    rewrite Ho. apply (rel_upd true c31 c32 _ R3).
+  - rewrite <- (rel_write_owner _ _ R). destruct (write_owner c1) as [o|] eqn:E; [|apply R].
+    assert (Ho : fst o = me).
+    { unfold write_owner in E. destruct (cur_owner c1) as [o'|] eqn:E'; [|discriminate].
+      destruct (Nat.eqb (fst o') 0); [discriminate|]. inversion E; subst. eapply rel_owner_get; eauto. }
+    rewrite Ho. apply (rel_upd true c1 c2 _ R).
+  - apply (rel_upd true c1 c2 _ R).
+Qed.
+End ExecRel.
